@@ -1,6 +1,7 @@
 package main
 
 import (
+	"bytes"
 	"errors"
 	"fmt"
 	"strings"
@@ -28,6 +29,7 @@ func prefill(vfs avfs.VFS, r *lib.Rng) {
 	_ = vfs.MkdirAll("/a/b", 0o755)
 	_ = vfs.WriteFile("/a/f", []byte("hello"), 0o644)
 	_ = vfs.WriteFile("/a/b/g", []byte("0123456789"), 0o600)
+	_ = vfs.WriteFile("/a/big", bytes.Repeat([]byte("0123456789abcdef"), 80), 0o644) // longer than the buffer ReadFile starts with
 	_ = vfs.Symlink("/a/f", "/l")
 	_ = vfs.Link("/a/f", "/h")
 	if r.Bool(50) {
@@ -180,6 +182,8 @@ func corrFailfs(seed uint64, tier string, replay []string) *lib.Result {
 				}
 				hist = append(hist, l)
 			}
+			// every history ends with a read of the file that is longer than ReadFile's first buffer
+			hist = append(hist, "fs 0 readfile "+lib.Hex("/a/big"))
 		}
 		// (1) transparent run, counting consultations
 		firstOfCall := false
@@ -256,7 +260,9 @@ func corrFailfs(seed uint64, tier string, replay []string) *lib.Result {
 			if at > 0 && firstOfCall && d2[at] != prev {
 				report("failfs.injected-effect."+fn, fmt.Sprintf("the call %q, made to fail at primitive %s, changed the base", hist[at], fn), hist[:at+1], o2[at])
 			}
-			if !strings.Contains(o2[at], "injected") {
+			if o2[at] == "hang" || o2[at] == "panic" {
+				report("failfs.fault-"+o2[at]+"."+f[2]+"."+fn, fmt.Sprintf("with primitive %s made to fail the call %q %ss (every call returns)", fn, hist[at], o2[at]), hist[:at+1], o2[at])
+			} else if !strings.Contains(o2[at], "injected") {
 				kind := "violation"
 				cls := "failfs.injected-swallowed." + f[2] + "." + fn
 				if !seen[cls] {
